@@ -237,7 +237,7 @@ def _rel(H, W, a, b, sy, sx, cy, cx):
     return ((H - 1) / 2.0 - a) * sy - cy, (b - (W - 1) / 2.0) * sx - cx
 
 
-def body_constructor(inp, H, W, kind, angle=0.0, angle2=0.0, level="util"):
+def body_constructor(inp, H, W, kind, angle=0.0, angle2=0.0, level="util", omit=None):
     import autoarray as aa
     from autoarray.mask import mask_2d_util as mu
     sy, sx = inp["scales"]
@@ -252,6 +252,14 @@ def body_constructor(inp, H, W, kind, angle=0.0, angle2=0.0, level="util"):
         # whose per-pixel behaviour is decided at level "util", and wrap the returned mask unchanged.
         oy, ox = inp["origin"]
         kw = dict(shape_native=(H, W), pixel_scales=(sy, sx), centre=(cy, cx), origin=(oy, ox))
+        # documented defaults (seed C02-l): an omitted `centre` requests (0.0, 0.0) RELATIVE to the mask origin, an omitted
+        # `origin` is (0.0, 0.0)
+        if omit in ("centre", "both"):
+            kw.pop("centre")
+            cy, cx = 0.0, 0.0
+        if omit in ("origin", "both"):
+            kw.pop("origin")
+            oy, ox = 0.0, 0.0
         kname = {"circular": "mask_2d_circular_from", "annular": "mask_2d_circular_annular_from",
                  "anti_annular": "mask_2d_circular_anti_annular_from", "elliptical": "mask_2d_elliptical_from",
                  "elliptical_annular": "mask_2d_elliptical_annular_from"}[kind]
@@ -438,7 +446,7 @@ def band_terms(inp, H, W, kind, angle, angle2):
     return out
 
 
-def case_constructor(ctx, H, W, kind, angle=0.0, angle2=0.0, conc_scales=None, level="util", conc_ratios=None):
+def case_constructor(ctx, H, W, kind, angle=0.0, angle2=0.0, conc_scales=None, level="util", conc_ratios=None, omit=None):
     if conc_scales is None:
         sy, sx = V.real("sy"), V.real("sx")
         ctx.assume(z3.And(sy.t > 0, sx.t > 0))
@@ -466,6 +474,8 @@ def case_constructor(ctx, H, W, kind, angle=0.0, angle2=0.0, conc_scales=None, l
     ctx.set_case(shape=[H, W], kind=kind)
     from symx import merge
     kw = {"H": H, "W": W, "kind": kind, "angle": angle, "angle2": angle2, "level": level}
+    if omit is not None:
+        kw["omit"] = omit
     if level == "util":
         from autoarray.mask import mask_2d_util as mu
         real = getattr(mu.elliptical_radius_from, "__wrapped_kernel__", mu.elliptical_radius_from)
@@ -547,6 +557,10 @@ def cases(tier):
     for (H, W) in [(1, 2), (2, 3)]:
         for kind in ("circular", "annular", "anti_annular", "elliptical", "elliptical_annular"):
             out.append(("case_constructor", {"H": H, "W": W, "kind": kind, "angle": 30.0, "angle2": 45.0, "conc_scales": None, "level": "class"}))
+            if (H, W) == (2, 3):
+                for om in ("centre", "origin", "both"):
+                    out.append(("case_constructor", {"H": H, "W": W, "kind": kind, "angle": 30.0, "angle2": 45.0, "conc_scales": None,
+                                                     "level": "class", "omit": om}))
     return out
 
 
